@@ -71,15 +71,10 @@ def make_inputs(ctx):
     from harness import halo_synth as hs
     from harness import c05 as h5
     rng = ctx.rng
-    t = h5.table(ctx)
-    if t:
-        user = [n for (n, _, _) in t['tables']['user_dt']]
-        progen = [n for (n, _, _) in t['tables']['clean_dt_progen']]
-        deps = {c: t['deps'][c]['halo'] for c in t['cols']}
-    else:   # translator broken: fall back on the schema of the synthetic files (enough for the oracle)
-        user = ['id', 'N', 'x_com', 'sigmavMid_com', 'sigmavMaj_com', 'sigmavMin_com', 'sigmavMid_L2com', 'r50_com', 'npoutA']
-        progen = ['N_total', 'haloindex', 'npoutA_merge']
-        deps = {'sigmavMid_com': ['sigmavMaj_com', 'sigmavMin_com'], 'sigmavMid_L2com': ['sigmavMaj_L2com', 'sigmavMin_L2com']}
+    t = h5.schema(ctx)      # live translation, or the snapshot of the pinned tree when the loaders no longer translate
+    user = [n for (n, _, _) in t['tables']['user_dt']]
+    progen = [n for (n, _, _) in t['tables']['clean_dt_progen']]
+    deps = {c: t['deps'][c]['halo'] for c in t['cols']}
     nrows = 2
     pairs = [(500.0, 30000.0)] if ctx.quick() else [(500.0, 30000.0), (0.5, 8.0)]
     cats = []
@@ -112,6 +107,10 @@ def make_inputs(ctx):
                 add(ci, cleaned, None, req)
                 last = rng.choice([x for x in INT_LAST if x != c])
                 add(ci, cleaned, None, [c, last])
+            for pair in h5.shared_raw_pairs(ctx, ctx.quick()):
+                add(ci, cleaned, None, list(pair))
+                if not ctx.quick():
+                    add(ci, cleaned, None, list(pair), units=False)
             for c in derived:
                 d = deps[c]
                 add(ci, cleaned, None, [c, d[0]])
@@ -340,8 +339,8 @@ def replay(ctx, rec):
     res = ctx.run_impl('harness.halo_synth', 'impl_load',
                        {'root': os.path.join(ctx.scratch, 'replay'), 'catalogs': cats, 'loads': loads})
     from harness import c05 as h5
-    t = h5.table(ctx)
-    deps = {c: t['deps'][c]['halo'] for c in t['cols']} if t else {}
+    t = h5.schema(ctx)
+    deps = {c: t['deps'][c]['halo'] for c in t['cols']}
     vs = [v for v in judge(cats, loads, res, deps) if v['key'] == rec['key']]
     brief = [{'load': {k: ld[k] for k in ('cleaned', 'fields', 'subsamples', 'units')},
               'outcome': r['class'], 'detail': r.get('value') if r['class'] != 'ok' else
